@@ -1198,7 +1198,7 @@ func TestC15PingPong(t *testing.T) {
 		t.Skip()
 	}
 	e := ev.GetEnv()
-	rounds := ev.Pick(200000, 2000000) / e.Shards
+	rounds := ev.Pick(1200000, 6000000) / e.Shards
 	bf, _ := service.VerifNewBuffer(16384)
 	var got atomic.Int64
 	res := make(chan string, 2)
